@@ -402,7 +402,7 @@ func solveAll(res *Result, timeout time.Duration, portfolio bool) {
 		queries[i] = res.engine.buildQuery(o, nil)
 	}
 	var wg sync.WaitGroup
-	sem := make(chan struct{}, 14)
+	sem := make(chan struct{}, 10)
 	for i := range res.Obls {
 		wg.Add(1)
 		sem <- struct{}{}
